@@ -11,12 +11,18 @@ variable of iv_wait.c.  The stable anchors are
   * the roots of iv_wait.c (exported API + functions whose address is installed as a
     handler), analysed with every helper of the same file inlined.
 
-Site obligations are evaluated in every root that reaches the site and are
-aggregated per root.
+Site obligations are evaluated in every root that reaches the site (on some abstract
+execution: View.reached) and are aggregated per root.
+
+Iteration 2: the inlined root is further normalised (UnitInliner: calls through a constant
+table of functions become a switch on the index; _late_call_results; _propagate_address_caches),
+locks are identified by the object their argument designates (through accessor functions and
+cached addresses), and the Explorer tracks heap / local-struct fields per object, splits
+undecided `c ? a : b` assignments and never decides a comparison of two non-null pointers.
 """
 from ..core import (AnalysisBroken, Inliner, canon, strip, walk, last_member, lvalue_steps, norm_cond,
                     forward, subst, root_var)
-from ..analyses import is_call, lock_effect, locksets, held, callback_kind
+from ..analyses import is_call, lock_effect, locksets, held, callback_kind, lock_id, LOCK_FUNCS
 from .. import interp, roles
 
 UNIT = 'iv_wait.c'
@@ -30,6 +36,47 @@ REAP = ('wait4', 'waitpid')
 ALLOC = ('malloc', 'calloc')
 
 NZ = 0x5A5A0000          # abstract "some non-null pointer / some positive number"
+NE0 = 0x5A5A0001         # abstract "some non-zero integer of unknown sign"
+ABSTRACT = (NZ, NE0)
+_UNKNOWN = {'k': 'var', 'name': '$unknown', 'vk': 'local'}
+
+
+def _abstract_ops(n):
+    """Operations on the abstract values: only what they stand for decides a comparison (non-null / positive against
+    0); two non-null pointers are not known to be equal or different, arithmetic on them is unknown."""
+    if isinstance(n, list):
+        return [_abstract_ops(x) for x in n]
+    if not isinstance(n, dict):
+        return n
+    n = {k: (_abstract_ops(v) if isinstance(v, (dict, list)) else v) for k, v in n.items()}
+    k = n.get('k')
+
+    def absval(x):
+        x = strip(x)
+        return x['v'] if isinstance(x, dict) and x.get('k') == 'int' and x['v'] in ABSTRACT else None
+    if k == 'bin' and n.get('op') not in ('&&', '||'):
+        la, ra = absval(n['l']), absval(n['r'])
+        if la is None and ra is None:
+            return n
+        if la is not None and ra is not None:
+            return dict(_UNKNOWN)
+        op = n['op']
+        if la is not None:
+            a, other = la, strip(n['r'])
+        else:
+            a, other, op = ra, strip(n['l']), SWAPOP.get(n['op'], n['op'])      # the abstract value on the left
+        if op in interp.CMP and isinstance(other, dict) and (other.get('k') == 'null' or (other.get('k') == 'int' and other['v'] == 0)):
+            if op in ('==', '!='):
+                return {'k': 'int', 'v': int(op == '!=')}
+            if a == NZ:
+                return {'k': 'int', 'v': int(op in ('>', '>='))}
+        return dict(_UNKNOWN)
+    if k == 'un' and n.get('op') in ('-', '~') and absval(n['e']) is not None:
+        return dict(_UNKNOWN)
+    return n
+
+
+SWAPOP = {'==': '==', '!=': '!=', '<': '>', '>': '<', '<=': '>=', '>=': '<='}
 REAPED_PID = 4242
 
 
@@ -59,6 +106,199 @@ def unit_roots(prog, unit=UNIT):
     return [f for f in roles.roots(prog) if f.file.endswith('/' + unit) or f.file == unit]
 
 
+def const_fn_table(prog, unit, fnexpr):
+    """`TABLE[idx]` where TABLE is a constant array of the unit initialised with function names:
+    (table name, [Func per element], idx expression), else None"""
+    x = strip(fnexpr)
+    if not (isinstance(x, dict) and x.get('k') == 'index'):
+        return None
+    b = strip(x['base'])
+    if not (isinstance(b, dict) and b.get('k') == 'var' and b.get('vk') in ('global', 'staticlocal') and 'const' in (b.get('type') or '')):
+        return None
+    g = prog.global_for(unit, b['name'])
+    init = g.get('init') if g else None
+    if not (isinstance(init, dict) and init.get('k') == 'init' and init.get('elems')):
+        return None
+    fs = []
+    for el in init['elems']:
+        el = strip(el)
+        if isinstance(el, dict) and el.get('k') == 'addr':
+            el = strip(el['e'])
+        if not (isinstance(el, dict) and el.get('k') == 'var' and el.get('vk') == 'func'):
+            return None
+        f = prog.resolve(g.get('unit') or unit, el['name'])
+        if f is None or not f.blocks:
+            return None
+        fs.append(f)
+    return (b['name'], fs, x['idx'])
+
+
+class UnitInliner(Inliner):
+    """core.Inliner plus table-driven dispatch: a call through `TABLE[idx]`, TABLE a constant array of functions
+    of the unit, is inlined as a `switch (idx)` over the elements of the table (the core already does the same
+    for poll-method slots, as a MethodDispatch without the selecting value)."""
+
+    def _targets(self, caller, e, known_table=None):
+        t = Inliner._targets(self, caller, e, known_table)
+        if t is None and 'callee' not in e and 'fnexpr' in e:
+            tb = const_fn_table(self.prog, self.prog.unit_of(caller), e['fnexpr'])
+            if tb is not None and not any(self.stop(f) for f in tb[1]):
+                out = []
+                for f in tb[1]:
+                    if f not in out:
+                        out.append(f)
+                return out
+        return t
+
+    def _emit(self, f, ren, chain, active, depth, retvar):
+        r = Inliner._emit(self, f, ren, chain, active, depth, retvar)
+        if depth == 0:
+            for blk in self.out.blocks.values():
+                if not (blk.term and blk.term.get('cls') == 'MethodDispatch' and blk.events and blk.events[-1]['ev'] == 'enter'):
+                    continue
+                en = blk.events[-1]
+                tb = const_fn_table(self.prog, UNIT, en.get('fnexpr')) if 'fnexpr' in en else None
+                if tb is None or len(en.get('targets', [])) != len(blk.succ):
+                    continue
+                entry_of = dict(zip(en['targets'], blk.succ))
+                if any(t.q not in entry_of for t in tb[1]):
+                    continue            # a target was not inlined (recursion): keep the undirected dispatch
+                blk.succ = [entry_of[t.q] for t in tb[1]]
+                blk.term = {'cls': 'SwitchStmt', 'cond': en['fnexpr'] and strip(en['fnexpr'])['idx'], 'cases': list(range(len(tb[1]))),
+                            'loc': blk.term.get('loc'), 'table': tb[0]}
+        return r
+
+
+def _late_call_results(g):
+    """The inliner replaces an inlined call expression by its return temporary in the rest of the *source block*
+    of the call; a call evaluated inside `c ? f(x) : y` or `a && f(x)` is consumed in a later block (the join).
+    Replace those remaining call expressions too (when the call site was inlined exactly once in this graph)."""
+    inst = {}
+    for e in g.events():
+        if e['ev'] == 'enter' and 'callee' in e:
+            inst.setdefault((e['callee'], e.get('loc')), set()).add(e.get('inst'))
+    rv = {}
+    for e in g.events():
+        if e['ev'] == 'leave' and e.get('retvar'):
+            rv[e.get('inst')] = {'k': 'var', 'name': e['retvar'], 'vk': 'local', 'type': e.get('rettype')}
+    repl = {k: rv[list(v)[0]] for k, v in inst.items() if len(v) == 1 and list(v)[0] in rv}
+    if not repl:
+        return
+
+    def r(n):
+        if n.get('k') == 'call' and (n.get('callee'), n.get('loc')) in repl:
+            return {'k': 'load', 'e': dict(repl[(n.get('callee'), n.get('loc'))])}
+        return None
+
+    def has(x):
+        return any(n.get('k') == 'call' and (n.get('callee'), n.get('loc')) in repl for n in walk(x))
+    for blk in g.blocks.values():
+        for e in blk.events:
+            if e['ev'] in ('enter', 'leave', 'call'):
+                continue
+            for k in ('rhs', 'value', 'init'):
+                if k in e and has(e[k]):
+                    e[k] = subst(e[k], r)
+        if blk.term and blk.term.get('cond') is not None and has(blk.term['cond']):
+            blk.term = dict(blk.term, cond=subst(blk.term['cond'], r))
+
+
+def _addr_path(rhs):
+    """rhs = `&path`, path a variable followed by member steps of which only the first may dereference (and
+    then a pointer local / parameter): (path expression, names of the locals it reads); else None"""
+    r = strip(rhs)
+    if not (isinstance(r, dict) and r.get('k') == 'addr'):
+        return None
+    path = r['e']
+    cur = strip(path)
+    for _ in range(8):
+        if not isinstance(cur, dict):
+            return None
+        if cur.get('k') == 'var':
+            return (path, {cur['name']} if cur.get('vk') in ('local', 'param') else set())
+        if cur.get('k') == 'member':
+            b = strip(cur['base'])
+            if cur.get('arrow'):
+                if isinstance(b, dict) and b.get('k') == 'var' and b.get('vk') in ('local', 'param'):
+                    return (path, {b['name']})
+                return None
+            cur = b
+            continue
+        return None
+    return None
+
+
+def _propagate_address_caches(g):
+    """`fl = &p->flags; ... *fl |= D;` / `q = &this->events_pending; ... q->next`: a dereference of a local that
+    holds, on every path, the address of the same access path (whose variables were not redefined since) is
+    replaced by that access path.  Flow-sensitive must-analysis; plain uses of the local (passing the address
+    on) are left alone and resolved by View.origin()."""
+    import copy as _copy
+    paths = {}
+
+    def kill(S, name):
+        return frozenset(f for f in S if f[0] != name and name not in f[2])
+
+    def tr(e, S):
+        if e['ev'] == 'store':
+            l = lval(e['lhs'])
+            if isinstance(l, dict) and l.get('k') == 'var':
+                S = kill(S, l['name'])
+                if e.get('op') == '=' and 'rhs' in e and l.get('vk') == 'local':
+                    ap = _addr_path(e['rhs'])
+                    if ap is not None and l['name'] not in ap[1]:
+                        c = canon(ap[0])
+                        paths[c] = ap[0]
+                        S = S | {(l['name'], c, frozenset(ap[1]))}
+        elif e['ev'] == 'decl':
+            S = kill(S, e['name'])
+        elif e['ev'] == 'call':
+            for a in e.get('args', []):
+                a = strip(a)
+                if isinstance(a, dict) and a.get('k') == 'addr':
+                    x = strip(a['e'])
+                    if isinstance(x, dict) and x.get('k') == 'var':
+                        S = kill(S, x['name'])
+        return S
+    _, ev_in = forward(g, frozenset(), tr, lambda a, b: a & b)
+
+    def rewrite(x, S):
+        if not S:
+            return x
+        known = {}
+        for (v, c, _) in S:
+            known.setdefault(v, set()).add(c)
+        known = {v: list(cs)[0] for v, cs in known.items() if len(cs) == 1}
+        if not known:
+            return x
+
+        def r(n):
+            k = n.get('k')
+            if k == 'deref':
+                b = strip(n['e'])
+                if isinstance(b, dict) and b.get('k') == 'var' and b['name'] in known:
+                    return _copy.deepcopy(paths[known[b['name']]])
+            if k == 'member' and n.get('arrow'):
+                b = strip(n['base'])
+                if isinstance(b, dict) and b.get('k') == 'var' and b['name'] in known:
+                    return dict(n, base=_copy.deepcopy(paths[known[b['name']]]), arrow=False)
+            return None
+        if not any(nd.get('k') == 'var' and nd['name'] in known for nd in walk(x)):
+            return x
+        return subst(x, r)
+    for b, blk in g.blocks.items():
+        for i, e in enumerate(blk.events):
+            S = ev_in.get((b, i))
+            if not S:
+                continue
+            for k in ('lhs', 'rhs', 'value', 'init', 'e', 'fnexpr', 'args'):
+                if k in e and isinstance(e[k], (dict, list)):
+                    e[k] = rewrite(e[k], S)
+        S = ev_in.get((b, len(blk.events)))
+        if S and blk.term and blk.term.get('cond') is not None:
+            blk.term = dict(blk.term, cond=rewrite(blk.term['cond'], S))
+
+
 class View:
     """A root of iv_wait.c with the helpers of the same file inlined (functions of other
     units stay opaque calls), plus definition/alias information used to see through
@@ -67,7 +307,9 @@ class View:
     def __init__(self, prog, root):
         self.prog = prog
         self.root = root
-        self.g = Inliner(prog, stop=lambda t: t.file.endswith('.c') and t.file != root.file).inline(root)
+        self.g = UnitInliner(prog, stop=lambda t: t.file.endswith('.c') and t.file != root.file).inline(root)
+        _late_call_results(self.g)
+        _propagate_address_caches(self.g)
         self.defs = {}
         self._parent = {}
         for e in self.g.events():
@@ -86,6 +328,14 @@ class View:
                         if o is not None and o.get('vk') in ('local', 'param'):
                             self._union(l['name'], o['name'])
         self._ls = None
+        self._reached = None
+        # lock identity: the object the argument of the lock call designates, through cached addresses and
+        # accessor functions (`___mutex_lock(the_mutex())`, `m = &state.lock; ___mutex_lock(m)`)
+        for e in self.g.events():
+            if e['ev'] == 'call' and e.get('callee') in LOCK_FUNCS and e.get('args'):
+                kind, ai = LOCK_FUNCS[e['callee']]
+                if kind in ('lock', 'unlock') and ai < len(e['args']):
+                    e['_lockfx'] = [(kind, lock_id(self.origin(e['args'][ai])))]
 
     # alias groups of locals connected by plain copies (x = y, $ret = x, param = arg)
     def _find(self, a):
@@ -117,15 +367,25 @@ class View:
             v = strip(x)
             if not (isinstance(v, dict) and v.get('k') == 'var' and v.get('vk') == 'local'):
                 return x
-            ds = self.defs.get(v['name'], [])
-            if len(ds) != 1 or ds[0].get('op') != '=' or 'rhs' not in ds[0]:
+            ds = self._single_def(v['name'])
+            if ds is None:
                 return x
-            r = strip(ds[0]['rhs'])
+            r = strip(ds['rhs'])
             if isinstance(r, dict) and r.get('k') in ('addr', 'var'):
-                x = ds[0]['rhs']
+                x = ds['rhs']
                 continue
             return x
         return x
+
+    def _single_def(self, name):
+        """the one definition `name = e` of a local (several events when the statement was duplicated by flag
+        partitioning / inlined twice with the same text), else None"""
+        ds = self.defs.get(name, [])
+        if not ds or any(d.get('op') != '=' or 'rhs' not in d for d in ds):
+            return None
+        if len(ds) > 1 and len({canon(d['rhs']) for d in ds}) != 1:
+            return None
+        return ds[0]
 
     def value_origin(self, x, depth=6):
         """x with a local that has a single definition replaced by the defining expression (cached values)"""
@@ -134,10 +394,10 @@ class View:
             v = strip(x)
             if not (isinstance(v, dict) and v.get('k') == 'var' and v.get('vk') == 'local'):
                 return x
-            ds = self.defs.get(v['name'], [])
-            if len(ds) != 1 or ds[0].get('op') != '=' or 'rhs' not in ds[0]:
+            ds = self._single_def(v['name'])
+            if ds is None:
                 return x
-            x = ds[0]['rhs']
+            x = ds['rhs']
         return x
 
     def addr_member(self, x):
@@ -154,13 +414,37 @@ class View:
                 return m['base']
         return None
 
+    def reached(self, e):
+        """False when no abstract execution of the root executes the event: the site sits behind a test that a
+        constant argument of this entry point decides (one worker behind several public entry points,
+        `worker(this, OP_KILL, sig)`).  Every branch the abstract state does not decide is followed both ways,
+        so True is an over-approximation of reachability; when the exploration is inconclusive everything counts
+        as reached."""
+        if self._reached is None:
+            pts = set()
+
+            def observe(ev, env, facts, val):
+                pts.add((ev.get('_b'), ev.get('_i')))
+                return None
+            try:
+                Explorer(self.g, max_states=30000).run((self.g.entry, 0), [({}, frozenset())], observe)
+                self._reached = pts
+            except AnalysisBroken:
+                self._reached = True
+        return self._reached is True or (e.get('_b'), e.get('_i')) in self._reached
+
     def locksets(self):
+        """must-held locks before every event: {(b, i): frozenset(lock ids)}"""
         if self._ls is None:
-            self._ls = locksets(self.g)
+            def tr(e, S):
+                for (op, lid) in lock_fx(e):
+                    S = (S | {lid}) if op == 'lock' else (S - {lid})
+                return S
+            _, self._ls = forward(self.g, frozenset(), tr, lambda a, b: a & b)
         return self._ls
 
     def held_at(self, e):
-        return held(self.locksets().get((e['_b'], e['_i'])))
+        return set(self.locksets().get((e['_b'], e['_i'])) or ())
 
     # ---- role predicates ---------------------------------------------------
     def is_reap(self, e):
@@ -247,6 +531,8 @@ def contexts(prog, pred_name):
         p = getattr(v, pred_name)
         sites = [e for e in v.g.events() if p(e)]
         if sites:
+            sites = [e for e in sites if v.reached(e)]      # a root is a context of the sites it can execute
+        if sites:
             out.append((v, sites))
     return out
 
@@ -273,12 +559,11 @@ def wait_lock(prog):
     if 'lock' in memo:
         return memo['lock']
     cands = set()
-    for f in prog.all_funcs():
-        if f.file.endswith('/' + UNIT):
-            for e in f.events():
-                for (op, lid) in lock_effect(e):
-                    if op == 'lock':
-                        cands.add(lid)
+    for v in views(prog):
+        for e in v.g.events():
+            for (op, lid) in lock_fx(e):
+                if op == 'lock':
+                    cands.add(lid)
     best = None
     if len(cands) == 1:
         best = list(cands)[0]
@@ -294,12 +579,18 @@ def wait_lock(prog):
     return best
 
 
+def lock_fx(e):
+    """[(op, lock id)] of an event of a View's graph (identity resolved by the View), else as the core names it"""
+    fx = e.get('_lockfx')
+    return fx if fx is not None else lock_effect(e)
+
+
 def unlocks(e, lock):
-    return any(op == 'unlock' and lid == lock for (op, lid) in lock_effect(e))
+    return any(op == 'unlock' and lid == lock for (op, lid) in lock_fx(e))
 
 
 def takes(e, lock):
-    return any(op == 'lock' and lid == lock for (op, lid) in lock_effect(e))
+    return any(op == 'lock' and lid == lock for (op, lid) in lock_fx(e))
 
 
 def held_since(g, start, lock, again=None):
@@ -337,10 +628,31 @@ def dead_values(prog):
     vals = set()
     for (f, e) in prog.writers_of(*FLAGS):
         if 'rhs' in e and e.get('op') in ('=', '|='):
-            r = strip(e['rhs'])
-            if isinstance(r, dict) and r.get('k') == 'int' and r['v'] != 0:
-                vals.add(r['v'])
+            c = const_value(e['rhs'])
+            if c:
+                vals.add(c)
     return sorted(vals) or [-1]
+
+
+def const_value(x):
+    """value of a constant expression (`1 << 0`, an enumerator, a literal), else None"""
+    try:
+        v = interp.evaluate(x, interp.Assignment(), {})
+    except (interp.Undecided, AnalysisBroken, ZeroDivisionError, KeyError, TypeError, ValueError, SyntaxError):
+        return None
+    return v if isinstance(v, int) else None
+
+
+def clears_dead(e, deadvals):
+    """a store to the flags word after which no dead bit is set: `= C`, `&= C` with C free of dead bits"""
+    if 'rhs' not in e or e.get('op') not in ('=', '&='):
+        return False
+    if e['op'] == '=' and canon(e['rhs']) in ('0', 'NULL'):
+        return True
+    c = const_value(e['rhs'])
+    if c is None:
+        return False
+    return all(d != -1 and (c & d) == 0 for d in deadvals) or c == 0
 
 
 # --------------------------------------------------------------------------
@@ -355,9 +667,10 @@ class Explorer:
     (point, environment, facts); `observe` lets a rule add facts and fork states.  No
     repository code runs."""
 
-    def __init__(self, g, cells=(), asg=None, call_value=None, max_states=60000):
+    def __init__(self, g, cells=(), asg=None, call_value=None, max_states=60000, alias=None):
         self.g = g
         self.cells = set(cells)
+        self.alias = alias          # name of a pointer local -> name of the object it designates (View.group); None: no heap fields
         self.asg = asg or interp.Assignment()
         self.call_value = call_value
         self.max_states = max_states
@@ -369,6 +682,15 @@ class Explorer:
 
         def conc(n):
             k = n.get('k')
+            if k == 'bin' and (self.asg.orders or self.asg.ints):
+                # comparisons the scenario decides are decided on the source operands (before the operands
+                # are replaced by what the state knows about them)
+                if n.get('op') in interp.CMP:
+                    o = self.asg.order(canon(n['l']), canon(n['r']))
+                    if o is not None:
+                        return {'k': 'int', 'v': int(interp.cmp_holds(o, n['op']))}
+                elif canon(n) in self.asg.ints:
+                    return {'k': 'int', 'v': self.asg.ints[canon(n)]}
             if k == 'addr' or k == 'str':
                 return {'k': 'int', 'v': NZ}
             if k == 'var' and n.get('vk') == 'func':
@@ -385,12 +707,21 @@ class Explorer:
                 if v is not None:
                     return {'k': 'int', 'v': v}
                 return {'k': 'var', 'name': '$unknown', 'vk': 'local'}
+            if k == 'member':
+                fk = self.field_key(n)
+                if fk is not None and fk in env:
+                    return {'k': 'int', 'v': env[fk]}
+            if k == 'assign' and n.get('op') == '=':
+                # `(v = e) != NULL`: the store event precedes the test, the expression has the value of v
+                return subst(n['l'], conc)
             if k == 'call' and self.call_value is not None:
                 v = self.call_value(n, env)
                 if v is not None:
                     return {'k': 'int', 'v': v}
             return None
         y = subst(x, conc)
+        if any(n.get('k') == 'int' and n.get('v') in ABSTRACT for n in walk(y)):
+            y = _abstract_ops(y)
         try:
             v = interp.evaluate(y, self.asg, env)
         except interp.Undecided:
@@ -398,6 +729,18 @@ class Explorer:
         except (ZeroDivisionError, KeyError, TypeError, ValueError, SyntaxError):
             return None
         return v if isinstance(v, int) else None
+
+    def field_key(self, m):
+        """environment key of a scalar field `p->f` of the object a pointer local p designates:
+        ('fld', object, record, field); None for anything else"""
+        if self.alias is None or not (isinstance(m, dict) and m.get('k') == 'member'):
+            return None
+        b = strip(m['base'])
+        if isinstance(b, dict) and b.get('k') == 'var' and b.get('vk') in ('local', 'param'):
+            if m.get('arrow'):
+                return ('fld', self.alias(b['name']), m.get('record'), m['field'])
+            return ('fld', '.' + b['name'], m.get('record'), m['field'])       # a field of a local struct
+        return None
 
     def pick(self, x, env):
         """resolve conditional expressions whose condition the state decides"""
@@ -418,6 +761,8 @@ class Explorer:
             if op == 'const':
                 continue
             lv = strip(l)
+            while isinstance(lv, dict) and lv.get('k') == 'assign' and lv.get('op') == '=':
+                lv = strip(lv['l'])
             if not isinstance(lv, dict):
                 continue
             key = None
@@ -425,15 +770,23 @@ class Explorer:
                 key = lv['name']
             elif lv.get('k') == 'member' and (lv.get('record'), lv['field']) in self.cells:
                 key = ('cell', lv.get('record'), lv['field'])
-            if key is None or key in env:
-                continue
-            rv = self.value(r, env)
+            keys = [key] if key is not None else []
+            w = l.get('_was') if isinstance(l, dict) else None
+            if isinstance(w, str):
+                keys.append(w)          # the local whose read copy propagation replaced by the path it caches
+            rv = self.value(r, env) if keys else None
             if rv is None:
                 continue
-            if op == '==':
-                env[key] = rv
-            elif (op == '!=' and rv == 0) or (op == '>' and rv >= 0) or (op == '>=' and rv > 0):
-                env[key] = NZ
+            for key in keys:
+                if key in env:
+                    continue
+                if op == '==':
+                    env[key] = rv
+                elif (op == '>' and rv >= 0) or (op == '>=' and rv > 0):
+                    env[key] = NZ
+                elif op == '!=' and rv == 0:
+                    t = (lv.get('type') or '') if isinstance(lv, dict) else ''
+                    env[key] = NZ if ('*' in t or lv.get('ptr') or lv.get('tptr')) else NE0
         return env
 
     # -- events ------------------------------------------------------------------
@@ -449,6 +802,16 @@ class Explorer:
             elif lvalue_steps(e['lhs'])[:1] and lvalue_steps(e['lhs'])[0] in self.cells and len(lvalue_steps(e['lhs'])) == 1:
                 st = lvalue_steps(e['lhs'])[0]
                 key = ('cell', st[0], st[1])
+            if key is None:
+                key = self.field_key(l)
+            elif self.alias is not None and isinstance(key, str) and any(isinstance(k_, tuple) and k_[0] == 'fld' for k_ in env):
+                # a pointer local is redefined: unless it keeps designating the same object (a copy within its
+                # alias group) what is known about the fields of the object it designated is forgotten
+                src = root_var(e['rhs']) if (e.get('op') == '=' and 'rhs' in e) else None
+                kept = src is not None and src.get('vk') in ('local', 'param') and self.alias(src['name']) == self.alias(key)
+                if not kept:
+                    o = (self.alias(key), '.' + key)
+                    env = {k_: v_ for k_, v_ in env.items() if not (isinstance(k_, tuple) and k_[0] == 'fld' and k_[1] in o)}
             if key is not None:
                 env = dict(env)
                 op = e.get('op')
@@ -483,11 +846,34 @@ class Explorer:
                     v = strip(a['e'])
                     if isinstance(v, dict) and v.get('k') == 'var' and v['name'] in env:
                         drop.append(v['name'])
+                    if isinstance(v, dict) and v.get('k') == 'var':
+                        drop += [k_ for k_ in env if isinstance(k_, tuple) and k_[0] == 'fld' and k_[1] == '.' + v['name']]
+                    fk = self.field_key(v)
+                    if fk is not None and fk in env:
+                        drop.append(fk)          # the callee may write the field whose address it gets
+                elif self.alias is not None and isinstance(a, dict) and a.get('k') == 'var' and a.get('vk') in ('local', 'param') \
+                        and e.get('callee') != 'free':
+                    o = self.alias(a['name'])     # the callee gets the object itself
+                    drop += [k_ for k_ in env if isinstance(k_, tuple) and k_[0] == 'fld' and k_[1] == o]
             if 'fnexpr' in e:
                 drop += [k for k in env if isinstance(k, tuple)]      # user code may change the cells
             if drop:
                 env = {k: v for k, v in env.items() if k not in drop}
         return env, val
+
+    def _split(self, e, env, depth=4):
+        """`x = c ? a : b` with a condition the state does not decide is executed as the two assignments
+        `x = a` (c assumed) and `x = b` (c refuted): [(event, env)]"""
+        if e['ev'] == 'store' and e.get('op') == '=' and 'rhs' in e and depth > 0:
+            r = strip(e['rhs'])
+            if isinstance(r, dict) and r.get('k') == 'cond':
+                c = self.value(r['c'], env)
+                out = []
+                for pol in ((True, False) if c is None else (bool(c),)):
+                    en = env if c is not None else self.refine(env, norm_cond(r['c'], pol))
+                    out += self._split(dict(e, rhs=r['a'] if pol else r['b']), en, depth - 1)
+                return out
+        return [(e, env)]
 
     def run(self, start, inits, observe=None, stop=None):
         """start = (block, index); inits = [(env dict, facts frozenset)].
@@ -534,12 +920,13 @@ class Explorer:
                 if e['ev'] == 'ret' and not e.get('chain'):
                     final('ret', env, facts, e)
                     continue
-                env2, val = self._apply(e, env)
-                outs = observe(e, env2, facts, val) if observe is not None else None
-                if outs is None:
-                    outs = [(env2, facts)]
-                for (en, fa) in outs:
-                    push(b, i + 1, en, fa)
+                for (e_eff, env1) in self._split(e, env):
+                    env2, val = self._apply(e_eff, env1)
+                    outs = observe(e, env2, facts, val) if observe is not None else None
+                    if outs is None:
+                        outs = [(env2, facts)]
+                    for (en, fa) in outs:
+                        push(b, i + 1, en, fa)
                 continue
             if blk.noreturn:
                 final('noreturn', env, facts, None)
@@ -597,11 +984,11 @@ CMPOPS = ('<', '>', '<=', '>=', '==', '!=')
 FLIP = {'<': '>', '>': '<', '=': '='}
 
 
-def status_loc(reap):
+def status_loc(reap, v=None):
     """where a waitpid/wait4 call stores the status: ('var', name) for a local, ('cell', record, field)
-    for a field (e.g. of the status record itself)"""
+    for a field (e.g. of the status record itself, or of a local struct that groups what was reaped)"""
     if len(reap.get('args', [])) > 1:
-        a = strip(reap['args'][1])
+        a = strip(v.origin(reap['args'][1]) if v is not None else reap['args'][1])
         if isinstance(a, dict) and a.get('k') == 'addr':
             x = strip(a['e'])
             if isinstance(x, dict) and x.get('k') == 'var':
@@ -618,7 +1005,7 @@ def key_nodes(g):
 
     def visit(x):
         for n in walk(x):
-            if n.get('k') == 'bin' and n.get('op') in CMPOPS and id(n) not in seen:
+            if n.get('k') == 'bin' and n.get('op') in CMPOPS + ('-',) and id(n) not in seen:
                 lp, rp = last_member(n['l']) == PID, last_member(n['r']) == PID
                 if lp != rp:
                     seen.add(id(n))
@@ -635,10 +1022,14 @@ def key_nodes(g):
 
 def key_assignment(g, o):
     """interp.Assignment deciding every pid comparison as (sought pid) o (node pid), o in '<=>'"""
-    orders = {}
+    orders, ints = {}, {}
+    sg = {'<': -1, '=': 0, '>': 1}
     for (n, sought, side) in key_nodes(g):
-        orders[(canon(n['l']), canon(n['r']))] = o if side == 'l' else FLIP[o]
-    return interp.Assignment(orders=orders)
+        if n['op'] == '-':
+            ints[canon(n)] = sg[o] if side == 'l' else -sg[o]      # the sign of `sought - node->pid` is their order
+        else:
+            orders[(canon(n['l']), canon(n['r']))] = o if side == 'l' else FLIP[o]
+    return interp.Assignment(orders=orders, ints=ints)
 
 
 def reaper_scenario(v, reap, status, lock=None, order=None, whole=False):
@@ -649,15 +1040,17 @@ def reaper_scenario(v, reap, status, lock=None, order=None, whole=False):
     set; ('F', grp) dead flag stored; ('F0', grp) flag cleared; 'LEAK' / 'DOUBLE' for the
     status record; 'left' / 'right' descent steps; 'K' a pid comparison was evaluated."""
     g = v.g
-    sloc = status_loc(reap)
+    sloc = status_loc(reap, v)
     skey = sloc[1] if sloc[0] == 'var' else sloc
     asg = key_assignment(g, order) if order else interp.Assignment()
     kset = set(asg.orders)
+    dset = set(asg.ints)
 
     def has_key(x):
-        return any(n.get('k') == 'bin' and n.get('op') in CMPOPS and (canon(n['l']), canon(n['r'])) in kset for n in walk(x))
+        return any(n.get('k') == 'bin' and ((n.get('op') in CMPOPS and (canon(n['l']), canon(n['r'])) in kset) or
+                                            (n.get('op') == '-' and canon(n) in dset)) for n in walk(x))
 
-    ex = Explorer(g, asg=asg, cells=[sloc[1:]] if sloc[0] == 'cell' else (),
+    ex = Explorer(g, asg=asg, cells=[sloc[1:]] if sloc[0] == 'cell' else (), alias=v.group,
                   call_value=lambda n, env: REAPED_PID if (n.get('callee') in REAP and not whole) else None)
     if order:
         ex.on_branch = lambda cond, env, facts: (facts | {'K'}) if has_key(cond) else facts
@@ -755,6 +1148,8 @@ def flag_scenario(v, lock, deadvals, is_site):
             return flips(env, facts)
         if is_site(e):
             c = env.get(cell)
+            if lock is not None and 'L' not in facts:
+                c = None            # outside the lock the reaper may have set the flag since it was last read
             return [(env, facts | {('site-live' if c == 0 else 'site-dead', e.get('loc'))})]
         return None
 
@@ -764,17 +1159,27 @@ def flag_scenario(v, lock, deadvals, is_site):
 
 
 def unlink_scenario(v, classify):
-    """All abstract paths of a root; classify(e) gives the alias group of the status record an
-    iv_list_del*() takes off a queue (None for other events).  Returns the source locations of
-    unlink sites whose record is not freed before the next unlink of the same variable / the return."""
+    """All abstract paths of a root; classify(e) gives ('take', grp) where a status record is designated as the
+    first / next element of a queue and ('unlink', grp) where it is unlinked (grp = alias group of the record
+    variable; None for other events).  The root owns the record from the first of the two.  Returns the source
+    locations of those sites whose record is not freed before the next record is taken into the same variable /
+    the return."""
     ex = Explorer(v.g)
 
     def observe(e, env, facts, val):
-        grp = classify(e)
-        if grp is not None:
+        c = classify(e)
+        if c is not None:
+            kind, grp = c
+            if kind == 'take' and val == 0:
+                return None                       # container_of(NULL): nothing was taken
             old = {f for f in facts if isinstance(f, tuple) and f[0] == 'own' and f[1] == grp}
-            leaks = {('leak', f[2]) for f in old}
-            return [(env, (facts - old) | leaks | {('own', grp, e.get('loc'))})]
+            other = 'unlink' if kind == 'take' else 'take'
+            if old and all(f[2] == other for f in old):
+                # the record designated before is now unlinked / the node unlinked before is now designated:
+                # still the same record
+                return [(env, (facts - old) | {('own', grp, 'both', f[3]) for f in old})]
+            leaks = {('leak', f[3]) for f in old}
+            return [(env, (facts - old) | leaks | {('own', grp, kind, e.get('loc'))})]
         if e['ev'] == 'call' and e.get('callee') == 'free' and e.get('args'):
             g_ = v.group_of(e['args'][0])
             old = {f for f in facts if isinstance(f, tuple) and f[0] == 'own' and f[1] == g_}
